@@ -193,13 +193,10 @@ pub fn def(ctx: &Ctx) -> PropertyDef {
         .into_iter()
         .map(|p| {
             let n = p.threads.len();
-            program_scenario(p, oracle(), move |_c| IlvCfg {
-                bounds: if quick { if n >= 3 { vec![0, 1] } else { vec![0, 1, 2] } } else if n >= 3 { vec![0, 1, 2] } else { vec![0, 1, 2, 3] },
-                workers,
-                split_depth: 6,
-                time_cap_s: Some(if quick { 7.0 } else { 400.0 }),
-                max_executions: None,
-            })
+            {
+                let nthreads = p.threads.len();
+                program_scenario(p, oracle(), move |c| crate::harness::ilv::tier_cfg(c, nthreads))
+            }
         })
         .collect();
     let mut assumptions = COMMON_ASSUMPTIONS.to_vec();
